@@ -25,6 +25,16 @@ thread_local! {
     static LAST_PANIC: RefCell<Option<PanicInfo>> = const { RefCell::new(None) };
 }
 
+/// Where the code under test lives ("/repo/" unless VERIF_REPO points at an isolated copy,
+/// see tools/iso.sh); only used to shorten paths in panic signatures.
+fn repo_prefix() -> String {
+    let mut r = std::env::var("VERIF_REPO").unwrap_or_else(|_| "/repo".to_string());
+    if !r.ends_with('/') {
+        r.push('/');
+    }
+    r
+}
+
 pub fn install_panic_hook() {
     std::panic::set_hook(Box::new(|info| {
         let message = if let Some(s) = info.payload().downcast_ref::<&str>() {
@@ -39,7 +49,7 @@ pub fn install_panic_hook() {
             .location()
             .map(|l| {
                 let f = l.file();
-                let f = f.strip_prefix("/repo/").unwrap_or(f);
+                let f = f.strip_prefix(repo_prefix().as_str()).unwrap_or(f);
                 // registry paths: keep crate dir + file
                 let f = match f.find("/registry/src/") {
                     Some(i) => {
@@ -63,7 +73,7 @@ pub fn install_panic_hook() {
         for line in bt.lines() {
             let l = line.trim();
             if let Some(path) = l.strip_prefix("at ") {
-                if let Some(rest) = path.strip_prefix("/repo/") {
+                if let Some(rest) = path.strip_prefix(repo_prefix().as_str()) {
                     if !rest.contains("/verif.rs") {
                         let file = rest.split(':').next().unwrap_or(rest);
                         let func = prev_fn.split('<').next().unwrap_or(&prev_fn).to_string();
